@@ -72,7 +72,7 @@ def extrasArg (s : String) : List String := if s.isEmpty then [] else s.splitOn 
 def handleDep (op : String) (args : List String) : Option String :=
   match op, args with
   | "reqparse", [text] =>
-    some <| match Req.parse text with
+    some <| match Req.parseTop text with
     | .ok r => "ok\t" ++ reqReport r
     | .error e => "err\t" ++ e.name
   | "giturl", [text] =>
@@ -81,15 +81,15 @@ def handleDep (op : String) (args : List String) : Option String :=
     | .error e => "err\t" ++ e.name
   | "dep508", text :: rest =>
     let (probes, envs) := splitBar rest
-    some (depResult (createFromPep508 text) probes envs)
+    some (depResult (createFromPep508Top text) probes envs)
   | "deprt", text :: rest =>
     let (probes, envs) := splitBar rest
-    some <| match createFromPep508 text with
+    some <| match createFromPep508Top text with
     | .error e => "err1\t" ++ e.name
     | .ok d =>
       match d.toPep508 true with
       | .error e => "errp\t" ++ e.name
-      | .ok t => "ok\t" ++ encode t ++ "\t" ++ depResult (createFromPep508 t) probes envs
+      | .ok t => "ok\t" ++ encode t ++ "\t" ++ depResult (createFromPep508Top t) probes envs
   | "depmk", "registry" :: name :: c :: extras :: marker :: py :: pyFirst :: inEx :: rest =>
     let (probes, envs) := splitBar rest
     some (depResult (do
@@ -121,7 +121,7 @@ def handleDep (op : String) (args : List String) : Option String :=
     | .error e => "err\t" ++ e.name
   | "provx", keys => some ("ok\t" ++ encode (joinWith "," (Dep02.providesExtra keys)))
   | "depeq", [a, b] =>
-    some <| match createFromPep508 a, createFromPep508 b with
+    some <| match createFromPep508Top a, createFromPep508Top b with
     | .ok x, .ok y =>
       "ok\t" ++ boolStr (x.beq y) ++ boolStr (x.spec.isSameSourceAs y.spec) ++ boolStr (decide (x.hashKey = y.hashKey))
     | .error e, _ => "perr\t" ++ e.name
